@@ -3,22 +3,57 @@ import Zc.GenFacts.Shutdown
 import Zc.Proofs.Shutdown
 /-! # C17 — shutdown is complete and quiet
 
-After `async_close` has returned nothing is transmitted and no callback fires, whatever was in progress;
-registered services were withdrawn with goodbyes before the transports closed; closing again is a no-op.
+After `close()` / `async_close()` has returned nothing is transmitted and no callback fires, whatever was
+in progress; registered services were withdrawn with goodbyes before the transports closed; closing again
+is a no-op.
 
-`Host` abstracts the instance to the flags and counters that decide whether something can leave it; what
+`Host` abstracts the instance to the flags and counters that decide whether something can leave it, plus
+**every close call made so far with its own program counter**: any number of `async_close()` / `close()`
+calls may overlap and are interleaved with each other and with everything else at block boundaries.  What
 each block *wants* to emit is an arbitrary argument of the block, so the theorems quantify over every
-in-flight state (probing, announcing, queued answers, deferred TC queries, browser timers, lookups) and
-every later block sequence.  The gates are the generated leaves `Gen.Shutdown.*`. -/
+in-flight state (probing, announcing, queued answers, deferred TC queries, browser timers, lookups), every
+interleaving and every later block sequence.  The gates are the generated leaves `Gen.Shutdown.*`.  The
+raise sites of the close path are explicit outcomes (`Out.raised`): `NotRunningException` out of
+`async_wait_for_start`, `CancelledError` at a suspension point of `async_close`. -/
 namespace Zc.Shutdown
 open Zc.GenFacts.Shutdown
 
+/-- **The flags follow the program counters** — an invariant of the machine, for every interleaving: a close
+that reached its shutdown has set `done` and closed the transports, one that returned has also cancelled the
+cleanup timer.  It holds when no close has been called and is preserved by every block. -/
+theorem C17_wf_invariant :
+    (∀ h : Host, h.closes = [] → WF h) ∧
+    (∀ (h h' : Host) (b : Block) (o : List Out), WF h → step h b = some (h', o) → WF h') ∧
+    (∀ (bs : List Block) (h h' : Host) (o : List Out), WF h → run h bs = some (h', o) → WF h') :=
+  ⟨fun h he c hc => by simp [he] at hc, fun h h' b o hw hs => WF_step h b h' o hw hs, WF_run⟩
+
+/-- **"Some close call has returned" means closed**, whichever of the overlapping calls it was and whatever
+the others are doing. -/
+theorem C17_returned_closed (h : Host) (hw : WF h) (hr : h.closes.any Close.isReturned = true) : Closed h := by
+  obtain ⟨c, hc, hret⟩ := List.any_eq_true.mp hr
+  have hst : c.stage = .returned := by
+    unfold Close.isReturned at hret
+    split at hret
+    · assumption
+    · simp at hret
+  obtain ⟨hd, ht, hcu⟩ := (hw c hc).2.2 hst
+  exact ⟨hd, ht, hcu, hr⟩
+
 /-- **C17, quiet (one block).**  In a closed host every block that can occur at all — timer, task
-resumption, even a further `close` — emits nothing, and the host stays closed. -/
-theorem C17_quiet (h : Host) (hc : Closed h) (b : Block) (h' : Host) (o : List Out)
-    (hs : step h b = some (h', o)) : o = [] ∧ Closed h' := by
-  obtain ⟨hd, ht, hcl, hst⟩ := hc
+resumption, a further close call or a step of a close still in progress, an API call — emits nothing
+(no datagram, no goodbye, no callback), and the host stays closed. -/
+theorem C17_quiet (h : Host) (hw : WF h) (hc : Closed h) (b : Block) (h' : Host) (o : List Out)
+    (hs : step h b = some (h', o)) : (∀ x ∈ o, x.isEmission = false) ∧ Closed h' := by
+  obtain ⟨hd, ht, hcl, hret⟩ := hc
+  have sm := step_summary h b h' o hw hs
+  refine ⟨?_, sm.done_mono hd, sm.tc_mono ht, sm.cu_mono hcl, sm.ret_mono hret⟩
   have hg : ∀ l, gated h l = [] := gated_of_done h hd
+  have hbody : ∀ s, (closeBody h s).2.1 = [] := by
+    intro s
+    simp only [closeBody]
+    split
+    · rfl
+    · exact hg _
   cases b with
   | recv s q d u => simp [step, ht] at hs
   | outqFire r =>
@@ -26,15 +61,15 @@ theorem C17_quiet (h : Host) (hc : Closed h) (b : Block) (h' : Host) (o : List O
     split at hs
     · simp at hs
     · simp only [Option.some.injEq, Prod.mk.injEq] at hs
-      obtain ⟨rfl, rfl⟩ := hs
-      exact ⟨hg _, hd, ht, hcl, hst⟩
+      obtain ⟨_, rfl⟩ := hs
+      simp [hg]
   | tcFire s q =>
     simp only [step] at hs
     split at hs
     · simp at hs
     · simp only [Option.some.injEq, Prod.mk.injEq] at hs
-      obtain ⟨rfl, rfl⟩ := hs
-      exact ⟨hg _, hd, ht, hcl, hst⟩
+      obtain ⟨_, rfl⟩ := hs
+      simp [hg]
   | schedFire i q =>
     simp only [step] at hs
     split at hs
@@ -42,200 +77,536 @@ theorem C17_quiet (h : Host) (hc : Closed h) (b : Block) (h' : Host) (o : List O
     · split at hs
       · simp at hs
       · simp only [hd, sched_blocked_of_done, ↓reduceIte, Option.some.injEq, Prod.mk.injEq] at hs
-        obtain ⟨rfl, rfl⟩ := hs
-        exact ⟨rfl, by simp [Closed, ht, hcl, hst]⟩
+        obtain ⟨_, rfl⟩ := hs
+        simp
   | cleanupFire e => simp [step, hcl] at hs
   | probeStep l =>
     simp only [step] at hs
     split at hs
     · simp at hs
     · simp only [Option.some.injEq, Prod.mk.injEq] at hs
-      obtain ⟨rfl, rfl⟩ := hs
-      refine ⟨hg _, ?_⟩
-      split <;> exact ⟨hd, ht, hcl, hst⟩
+      obtain ⟨_, rfl⟩ := hs
+      simp [hg]
   | announceStep l =>
     simp only [step] at hs
     split at hs
     · simp at hs
     · simp only [Option.some.injEq, Prod.mk.injEq] at hs
-      obtain ⟨rfl, rfl⟩ := hs
-      refine ⟨hg _, ?_⟩
-      split <;> exact ⟨hd, ht, hcl, hst⟩
+      obtain ⟨_, rfl⟩ := hs
+      simp [hg]
   | lookupStep s f =>
     simp only [step] at hs
     split at hs
     · simp at hs
     · simp only [Option.some.injEq, Prod.mk.injEq] at hs
-      obtain ⟨rfl, rfl⟩ := hs
-      refine ⟨hg _, ?_⟩
-      split <;> exact ⟨hd, ht, hcl, hst⟩
-  | closeCall =>
-    simp only [step, hst, Option.some.injEq, Prod.mk.injEq] at hs
-    obtain ⟨rfl, rfl⟩ := hs
-    refine ⟨?_, hd, ht, hcl, rfl⟩
-    split
-    · rfl
-    · exact hg _
-  | closeGoodbye =>
-    simp only [step, hst, Option.some.injEq, Prod.mk.injEq] at hs
-    obtain ⟨rfl, rfl⟩ := hs
-    exact ⟨hg _, hd, ht, hcl, hst⟩
-  | closeShutdown =>
-    simp only [step, hst, Option.some.injEq, Prod.mk.injEq] at hs
-    obtain ⟨rfl, rfl⟩ := hs
-    exact ⟨rfl, by simp [Closed, hd, hcl]⟩
-  | closeFinish =>
-    simp only [step, hst, Option.some.injEq, Prod.mk.injEq] at hs
-    obtain ⟨rfl, rfl⟩ := hs
-    exact ⟨rfl, by simp [Closed, hd, ht]⟩
+      obtain ⟨_, rfl⟩ := hs
+      simp [hg]
+  | startUp => simp [step, hd] at hs
+  | apiCall k =>
+    simp only [step, hd, wait_raises_of_done, ↓reduceIte, Option.some.injEq, Prod.mk.injEq] at hs
+    obtain ⟨_, rfl⟩ := hs
+    simp [Out.isEmission]
+  | closeCall sync =>
+    simp only [step] at hs
+    split at hs
+    · simp only [Option.some.injEq, Prod.mk.injEq] at hs
+      obtain ⟨_, rfl⟩ := hs
+      simp
+    · simp only [Option.some.injEq, Prod.mk.injEq] at hs
+      obtain ⟨_, rfl⟩ := hs
+      simp [hbody]
+  | closeWake i t =>
+    simp only [step] at hs
+    split at hs
+    · split at hs
+      · simp only [Option.some.injEq, Prod.mk.injEq] at hs
+        obtain ⟨_, rfl⟩ := hs
+        simp [hbody]
+      · split at hs
+        · simp at hs
+        · split at hs
+          · simp only [Option.some.injEq, Prod.mk.injEq] at hs
+            obtain ⟨_, rfl⟩ := hs
+            simp [Out.isEmission]
+          · simp only [Option.some.injEq, Prod.mk.injEq] at hs
+            obtain ⟨_, rfl⟩ := hs
+            simp [hbody]
+    · simp at hs
+  | closeGoodbye i =>
+    simp only [step] at hs
+    split at hs
+    · simp only [Option.some.injEq, Prod.mk.injEq] at hs
+      obtain ⟨_, rfl⟩ := hs
+      simp [hg]
+    · simp at hs
+  | closeMarkDone i =>
+    simp only [step] at hs
+    split at hs
+    · simp only [Option.some.injEq, Prod.mk.injEq] at hs
+      obtain ⟨_, rfl⟩ := hs
+      simp
+    · simp at hs
+  | closeShutdown i =>
+    simp only [step] at hs
+    split at hs
+    · simp only [Option.some.injEq, Prod.mk.injEq] at hs
+      obtain ⟨_, rfl⟩ := hs
+      simp
+    · simp only [Option.some.injEq, Prod.mk.injEq] at hs
+      obtain ⟨_, rfl⟩ := hs
+      simp
+    · simp at hs
+  | closeFinish i =>
+    simp only [step] at hs
+    split at hs
+    · simp only [Option.some.injEq, Prod.mk.injEq] at hs
+      obtain ⟨_, rfl⟩ := hs
+      simp
+    · simp at hs
+  | closeAbort i =>
+    simp only [step] at hs
+    split at hs
+    all_goals first
+      | (simp only [Option.some.injEq, Prod.mk.injEq] at hs
+         obtain ⟨_, rfl⟩ := hs
+         simp [Out.isEmission])
+      | simp at hs
 
-/-- **C17, quiet (forever).**  After close, every sequence of blocks — hours of timers, task wake-ups,
-further closes — emits nothing at all. -/
-theorem C17_quiet_run (bs : List Block) : ∀ (h : Host), Closed h → ∀ h' o, run h bs = some (h', o) → o = [] ∧ Closed h' := by
+/-- **C17, quiet (forever).**  After some close call has returned, every sequence of blocks — hours of
+timers, task wake-ups, the remaining steps of overlapping closes, further closes, API calls — emits nothing
+at all. -/
+theorem C17_quiet_run (bs : List Block) : ∀ (h : Host), WF h → Closed h → ∀ h' o, run h bs = some (h', o) →
+    (∀ x ∈ o, x.isEmission = false) ∧ Closed h' ∧ WF h' := by
   induction bs with
   | nil =>
-    intro h hc h' o hr
+    intro h hw hc h' o hr
     simp only [run, Option.some.injEq, Prod.mk.injEq] at hr
     obtain ⟨rfl, rfl⟩ := hr
-    exact ⟨rfl, hc⟩
+    exact ⟨by simp, hc, hw⟩
   | cons b rest ih =>
-    intro h hc h' o hr
-    simp only [run, bind, Option.bind] at hr
-    cases h1 : step h b with
-    | none => simp [h1] at hr
-    | some v1 =>
-      obtain ⟨s1, o1⟩ := v1
-      simp only [h1] at hr
-      cases h2 : run s1 rest with
-      | none => simp [h2] at hr
-      | some v2 =>
-        obtain ⟨s2, o2⟩ := v2
-        simp only [h2, pure, Option.some.injEq, Prod.mk.injEq] at hr
-        obtain ⟨rfl, rfl⟩ := hr
-        obtain ⟨e1, c1⟩ := C17_quiet h hc b s1 o1 h1
-        obtain ⟨e2, c2⟩ := ih s1 c1 s2 o2 h2
-        exact ⟨by simp [e1, e2], c2⟩
+    intro h hw hc h' o hr
+    obtain ⟨s1, o1, o2, h1, h2, rfl⟩ := run_cons h b rest h' o hr
+    obtain ⟨e1, c1⟩ := C17_quiet h hw hc b s1 o1 h1
+    obtain ⟨e2, c2, w2⟩ := ih s1 (WF_step h b s1 o1 hw h1) c1 h' o2 h2
+    refine ⟨?_, c2, w2⟩
+    intro x hx
+    rcases List.mem_append.mp hx with hx | hx
+    · exact e1 x hx
+    · exact e2 x hx
 
-/-- datagrams can no longer even arrive: a closed host rejects `recv`; nor can the cleanup timer fire -/
+/-- the same, starting from "a close call has returned" -/
+theorem C17_quiet_after_return (bs : List Block) (h : Host) (hw : WF h) (hr : h.closes.any Close.isReturned = true)
+    (h' : Host) (o : List Out) (hrun : run h bs = some (h', o)) : ∀ x ∈ o, x.isEmission = false :=
+  (C17_quiet_run bs h hw (C17_returned_closed h hw hr) h' o hrun).1
+
+/-- datagrams can no longer even arrive: a closed host rejects `recv`; nor can the cleanup timer fire, nor
+can start-up complete -/
 theorem C17_no_input_after_close (h : Host) (hc : Closed h) (s q : Nat) (d u e : Bool) :
-    step h (.recv s q d u) = none ∧ step h (.cleanupFire e) = none := by
-  obtain ⟨_, ht, hcl, _⟩ := hc
-  simp [step, ht, hcl]
+    step h (.recv s q d u) = none ∧ step h (.cleanupFire e) = none ∧ step h .startUp = none := by
+  obtain ⟨hd, ht, hcl, _⟩ := hc
+  simp [step, ht, hcl, hd]
 
-/-! ## the close sequence -/
+/-- **The raise sites.**  In any state, the only blocks that hand an exception to a caller are: a close that
+was suspended waiting for start-up, or an API call (`NotRunningException`), and the cancellation of the task
+awaiting a close (`CancelledError`).  Timers and task resumptions never raise — before or after close. -/
+theorem C17_raise_sites (h : Host) (b : Block) (h' : Host) (o : List Out) (hs : step h b = some (h', o))
+    (e : Exc) (he : Out.raised e ∈ o) :
+    (e = .notRunning ∧ ((∃ i t, b = .closeWake i t) ∨ ∃ k, b = .apiCall k)) ∨ (e = .cancelled ∧ ∃ i, b = .closeAbort i) := by
+  have hgr : ∀ l : List Out, (∀ x ∈ l, ∀ e', x ≠ Out.raised e') → ∀ e', Out.raised e' ∉ gated h l := by
+    intro l hl e' hm
+    rcases gated_sub h l with g | g <;> rw [g] at hm
+    · simp at hm
+    · exact hl _ hm e' rfl
+  have hrep : ∀ n e', Out.raised e' ∉ gated h (List.replicate n Out.send) := by
+    intro n e'
+    exact hgr _ (by intro x hx; simp only [List.mem_replicate] at hx; rw [hx.2]; intro e'' hh; cases hh) e'
+  have hone : ∀ (y : Out) e', (∀ e'', y ≠ .raised e'') → Out.raised e' ∉ gated h [y] := by
+    intro y e' hy
+    exact hgr _ (by intro x hx; simp only [List.mem_singleton] at hx; rw [hx]; exact hy) e'
+  have hnot : ∀ u e', Out.raised e' ∉ notify h u := by
+    intro u e' hm
+    unfold notify at hm
+    split at hm
+    · simp only [List.mem_append, List.mem_map, List.mem_replicate] at hm
+      rcases hm with ⟨_, _, hh⟩ | ⟨_, hh⟩ <;> cases hh
+    · simp at hm
+  have hbody : ∀ s e', Out.raised e' ∉ (closeBody h s).2.1 := by
+    intro s e' hm
+    simp only [closeBody] at hm
+    split at hm
+    · simp at hm
+    · exact hone .goodbye e' (by intro e'' hh; cases hh) hm
+  cases b with
+  | recv s q d u =>
+    simp only [step] at hs
+    split at hs
+    · simp at hs
+    · simp only [Option.some.injEq, Prod.mk.injEq] at hs
+      obtain ⟨_, rfl⟩ := hs
+      rcases List.mem_append.mp he with hm | hm
+      · exact absurd hm (hrep _ _)
+      · exact absurd hm (hnot _ _)
+  | outqFire r =>
+    simp only [step] at hs
+    split at hs
+    · simp at hs
+    · simp only [Option.some.injEq, Prod.mk.injEq] at hs
+      obtain ⟨_, rfl⟩ := hs
+      exfalso
+      split at he
+      · exact hone .send e (by intro e'' hh; cases hh) he
+      · exact hgr [] (by simp) e he
+  | tcFire s q =>
+    simp only [step] at hs
+    split at hs
+    · simp at hs
+    · simp only [Option.some.injEq, Prod.mk.injEq] at hs
+      obtain ⟨_, rfl⟩ := hs
+      exact absurd he (hrep _ _)
+  | schedFire i q =>
+    simp only [step] at hs
+    split at hs
+    · simp at hs
+    · split at hs
+      · simp at hs
+      · split at hs
+        · simp only [Option.some.injEq, Prod.mk.injEq] at hs
+          obtain ⟨_, rfl⟩ := hs
+          simp at he
+        · simp only [Option.some.injEq, Prod.mk.injEq] at hs
+          obtain ⟨_, rfl⟩ := hs
+          exact absurd he (hrep _ _)
+  | cleanupFire x =>
+    simp only [step] at hs
+    split at hs
+    · simp at hs
+    · simp only [Option.some.injEq, Prod.mk.injEq] at hs
+      obtain ⟨_, rfl⟩ := hs
+      exact absurd he (hnot _ _)
+  | probeStep l =>
+    simp only [step] at hs
+    split at hs
+    · simp at hs
+    · simp only [Option.some.injEq, Prod.mk.injEq] at hs
+      obtain ⟨_, rfl⟩ := hs
+      exact absurd he (hone .send e (by intro e'' hh; cases hh))
+  | announceStep l =>
+    simp only [step] at hs
+    split at hs
+    · simp at hs
+    · simp only [Option.some.injEq, Prod.mk.injEq] at hs
+      obtain ⟨_, rfl⟩ := hs
+      exact absurd he (hone .send e (by intro e'' hh; cases hh))
+  | lookupStep s f =>
+    simp only [step] at hs
+    split at hs
+    · simp at hs
+    · simp only [Option.some.injEq, Prod.mk.injEq] at hs
+      obtain ⟨_, rfl⟩ := hs
+      exact absurd he (hrep _ _)
+  | startUp =>
+    simp only [step] at hs
+    split at hs
+    · simp at hs
+    · simp only [Option.some.injEq, Prod.mk.injEq] at hs
+      obtain ⟨_, rfl⟩ := hs
+      simp at he
+  | apiCall k =>
+    simp only [step] at hs
+    split at hs
+    · simp only [Option.some.injEq, Prod.mk.injEq] at hs
+      obtain ⟨_, rfl⟩ := hs
+      simp only [List.mem_singleton, Out.raised.injEq] at he
+      exact Or.inl ⟨he, Or.inr ⟨k, rfl⟩⟩
+    · split at hs
+      · simp at hs
+      · cases k <;>
+        · simp only [Option.some.injEq, Prod.mk.injEq] at hs
+          obtain ⟨_, rfl⟩ := hs
+          simp at he
+  | closeCall sync =>
+    simp only [step] at hs
+    split at hs
+    · simp only [Option.some.injEq, Prod.mk.injEq] at hs
+      obtain ⟨_, rfl⟩ := hs
+      simp at he
+    · simp only [Option.some.injEq, Prod.mk.injEq] at hs
+      obtain ⟨_, rfl⟩ := hs
+      exact absurd he (hbody _ _)
+  | closeWake i t =>
+    simp only [step] at hs
+    split at hs
+    · split at hs
+      · simp only [Option.some.injEq, Prod.mk.injEq] at hs
+        obtain ⟨_, rfl⟩ := hs
+        exact absurd he (hbody _ _)
+      · split at hs
+        · simp at hs
+        · split at hs
+          · simp only [Option.some.injEq, Prod.mk.injEq] at hs
+            obtain ⟨_, rfl⟩ := hs
+            simp only [List.mem_singleton, Out.raised.injEq] at he
+            exact Or.inl ⟨he, Or.inl ⟨i, t, rfl⟩⟩
+          · simp only [Option.some.injEq, Prod.mk.injEq] at hs
+            obtain ⟨_, rfl⟩ := hs
+            exact absurd he (hbody _ _)
+    · simp at hs
+  | closeGoodbye i =>
+    simp only [step] at hs
+    split at hs
+    · simp only [Option.some.injEq, Prod.mk.injEq] at hs
+      obtain ⟨_, rfl⟩ := hs
+      exact absurd he (hone .goodbye e (by intro e'' hh; cases hh))
+    · simp at hs
+  | closeMarkDone i =>
+    simp only [step] at hs
+    split at hs
+    · simp only [Option.some.injEq, Prod.mk.injEq] at hs
+      obtain ⟨_, rfl⟩ := hs
+      simp at he
+    · simp at hs
+  | closeShutdown i =>
+    simp only [step] at hs
+    split at hs
+    · simp only [Option.some.injEq, Prod.mk.injEq] at hs
+      obtain ⟨_, rfl⟩ := hs
+      simp at he
+    · simp only [Option.some.injEq, Prod.mk.injEq] at hs
+      obtain ⟨_, rfl⟩ := hs
+      simp at he
+    · simp at hs
+  | closeFinish i =>
+    simp only [step] at hs
+    split at hs
+    · simp only [Option.some.injEq, Prod.mk.injEq] at hs
+      obtain ⟨_, rfl⟩ := hs
+      simp at he
+    · simp at hs
+  | closeAbort i =>
+    simp only [step] at hs
+    split at hs
+    all_goals first
+      | (simp only [Option.some.injEq, Prod.mk.injEq] at hs
+         obtain ⟨_, rfl⟩ := hs
+         simp only [List.mem_singleton, Out.raised.injEq] at he
+         exact Or.inr ⟨he, i, rfl⟩)
+      | simp at hs
 
-/-- **C17, goodbyes first (partial).**  Close is called on a running host with `n > 0` registered services,
-whatever else is in flight; any blocks may be interleaved with the close *except the completion of a
-registration*.  Then, by the time the close is about to shut the transports, exactly three goodbye datagrams
-have been emitted, the transports are still open, and the registry is empty.
-Missing for full strength: a registration completing during the goodbye phase (`probeStep true` among the
-interleaved blocks) adds a service that is announced and never withdrawn — finding D15
-(`known_findings.json`, signature "registration completes during close"); see `C17_goodbye_full_refuted`. -/
-theorem C17_goodbye_first_partial (h : Host) (hidle : h.stage = .idle) (hnd : h.done = false)
-    (hopen : h.transportsClosed = false) (hreg : 0 < h.registry)
-    (m1 m2 m3 : List Block) (hm1 : ∀ b ∈ m1, b.mid = true) (hm2 : ∀ b ∈ m2, b.mid = true) (hm3 : ∀ b ∈ m3, b.mid = true)
+/-- a close that waited for start-up raises exactly when it was not its own timeout that woke it and the
+instance is no longer running or already done — i.e. another close (or a failed start) got there first -/
+theorem C17_wake_raises_iff (h : Host) (i : Nat) (t : Bool) (h' : Host) (o : List Out)
+    (hs : step h (.closeWake i t) = some (h', o)) :
+    Out.raised .notRunning ∈ o ↔ (t = false ∧ (h.running = false ∨ h.done = true)) := by
+  simp only [step] at hs
+  split at hs
+  · split at hs
+    · rename_i ht
+      simp only [Option.some.injEq, Prod.mk.injEq] at hs
+      obtain ⟨_, rfl⟩ := hs
+      simp only [ht, Bool.true_eq_false, false_and, iff_false]
+      simp only [closeBody]
+      split
+      · simp
+      · intro hm
+        rcases gated_sub h [.goodbye] with g | g <;> rw [g] at hm <;> simp at hm
+    · rename_i ht
+      have ht' : t = false := by simpa using ht
+      split at hs
+      · simp at hs
+      · split at hs
+        · rename_i hr
+          simp only [Option.some.injEq, Prod.mk.injEq] at hs
+          obtain ⟨_, rfl⟩ := hs
+          simp only [List.mem_singleton, true_iff]
+          exact ⟨ht', (wait_raises_after_iff _ _).mp hr⟩
+        · rename_i hr
+          simp only [Option.some.injEq, Prod.mk.injEq] at hs
+          obtain ⟨_, rfl⟩ := hs
+          have : ¬(h.running = false ∨ h.done = true) := fun hh => hr ((wait_raises_after_iff _ _).mpr hh)
+          simp only [this, and_false, iff_false]
+          simp only [closeBody]
+          split
+          · simp
+          · intro hm
+            rcases gated_sub h [.goodbye] with g | g <;> rw [g] at hm <;> simp at hm
+  · simp at hs
+
+/-! ## the goodbyes -/
+
+/-- **C17, goodbyes first — every interleaving (partial).**  A close call (sync or async) on a running,
+not-done host with `n > 0` registered services: the goodbye datagram for all of them is transmitted **in
+that very block**, while the transports are open; and whatever follows — other close calls overlapping it and
+shutting the instance down early, cancellations, timers, traffic — the registry is empty ever after,
+*provided no registration completes meanwhile*.  The proviso is exactly the signature of finding D15
+(`C17_goodbye_full_refuted`). -/
+theorem C17_goodbye_once_partial (h : Host) (sync : Bool) (hnd : h.done = false) (hrun : h.running = true)
+    (hreg : 0 < h.registry) (bs : List Block) (hb : ∀ b ∈ bs, b.noCompletion = true)
+    (h' : Host) (o : List Out) (hr : run h (.closeCall sync :: bs) = some (h', o)) :
+    (∃ h1 o1, step h (.closeCall sync) = some (h1, o1) ∧ count isGoodbye o1 = 1 ∧
+        h1.transportsClosed = h.transportsClosed ∧ h1.done = false) ∧
+    h'.registry = 0 ∧ 1 ≤ count isGoodbye o := by
+  have hreg' : h.registry ≠ 0 := by omega
+  obtain ⟨s1, o1, o2, h1, h2, rfl⟩ := run_cons h (.closeCall sync) bs h' o hr
+  have hstep := h1
+  simp only [step, hrun, Bool.not_true, Bool.and_false, Bool.false_eq_true, ↓reduceIte, Option.some.injEq,
+    Prod.mk.injEq] at h1
+  obtain ⟨rfl, rfl⟩ := h1
+  have hc1 : count isGoodbye (closeBody h sync).2.1 = 1 := by
+    simp only [closeBody, hreg', ↓reduceIte, gated_of_not_done h hnd]
+    rfl
+  refine ⟨⟨_, _, hstep, hc1, by simp [closeBody], by simp [closeBody, hnd]⟩, ?_, ?_⟩
+  · exact noCompletion_run bs hb _ h' o2 h2 (by simp [closeBody])
+  · rw [count_append, hc1]; omega
+
+/-- **C17, goodbyes first — three of them (partial).**  The first close call (sync or async) on a running host
+with `n > 0` registered services; anything may be interleaved — traffic, timers, tasks, *further close calls
+starting, waking, finishing or being cancelled* — except a completing registration (D15) and another close
+reaching its shutdown before this one's goodbyes are out.  Then when this close is about to shut the transports
+exactly three goodbye datagrams have been emitted, the transports are still open, the registry is empty. -/
+theorem C17_goodbye_first_partial (h : Host) (sync : Bool) (hfirst : h.closes = []) (hnd : h.done = false)
+    (hrun : h.running = true) (hopen : h.transportsClosed = false) (hreg : 0 < h.registry)
+    (m1 m2 m3 : List Block) (hm1 : ∀ b ∈ m1, b.mid3 = true) (hm2 : ∀ b ∈ m2, b.mid3 = true) (hm3 : ∀ b ∈ m3, b.mid3 = true)
     (h' : Host) (o : List Out)
-    (hr : run h (.closeCall :: m1 ++ (.closeGoodbye :: m2 ++ .closeGoodbye :: m3)) = some (h', o)) :
-    count isGoodbye o = 3 ∧ h'.transportsClosed = false ∧ h'.registry = 0 ∧ h'.done = false ∧ h'.stage = .unregistering 0 := by
+    (hr : run h (.closeCall sync :: m1 ++ (.closeGoodbye 0 :: m2 ++ .closeGoodbye 0 :: m3)) = some (h', o)) :
+    count isGoodbye o = 3 ∧ h'.transportsClosed = false ∧ h'.registry = 0 ∧ h'.done = false ∧
+      h'.closes[0]? = some ⟨sync, .unregistering 0⟩ := by
   have hreg' : h.registry ≠ 0 := by omega
   rw [run_append] at hr
-  cases ha : run h (.closeCall :: m1) with
+  cases ha : run h (.closeCall sync :: m1) with
   | none => simp [ha] at hr
   | some va =>
     obtain ⟨ha', oa⟩ := va
     simp only [ha, Option.bind] at hr
-    obtain ⟨s1, p1, q1, e1, r1, rfl⟩ := run_cons_mid h .closeCall m1 ha' oa ha
-    simp only [step, hidle, hreg', ↓reduceIte, Option.some.injEq, Prod.mk.injEq] at e1
+    obtain ⟨s1, p1, q1, e1, r1, rfl⟩ := run_cons h (.closeCall sync) m1 ha' oa ha
+    simp only [step, hrun, Bool.not_true, Bool.and_false, Bool.false_eq_true, ↓reduceIte, Option.some.injEq,
+      Prod.mk.injEq] at e1
     obtain ⟨rfl, rfl⟩ := e1
-    obtain ⟨d1, st1, g1, t1, c1⟩ := mid_run m1 hm1 _ ha' q1 r1
-    simp only at d1 st1 g1 t1
+    have hc0 : ({ (closeBody h sync).1 with closes := h.closes ++ [⟨sync, (closeBody h sync).2.2⟩] } : Host).closes[0]?
+        = some ⟨sync, .unregistering moreGoodbyes⟩ := by
+      simp [hfirst, closeBody, hreg']
+    obtain ⟨d1, t1, g1, k1, c1⟩ := mid_run m1 hm1 _ _ ha' q1 r1 hc0 (by simp [closeBody])
+    simp only [closeBody] at d1 t1
     rw [run_append] at hr
-    cases hb : run ha' (.closeGoodbye :: m2) with
+    cases hb : run ha' (.closeGoodbye 0 :: m2) with
     | none => simp [hb] at hr
     | some vb =>
       obtain ⟨hb', ob⟩ := vb
       simp only [hb, Option.bind] at hr
-      obtain ⟨s2, p2, q2, e2, r2, rfl⟩ := run_cons_mid ha' .closeGoodbye m2 hb' ob hb
-      simp only [step, st1, moreGoodbyes, register_broadcasts] at e2
+      obtain ⟨s2, p2, q2, e2, r2, rfl⟩ := run_cons ha' (.closeGoodbye 0) m2 hb' ob hb
+      simp only [step, k1, moreGoodbyes, register_broadcasts] at e2
       obtain ⟨rfl, rfl⟩ := e2
-      obtain ⟨d2, st2, g2, t2, c2⟩ := mid_run m2 hm2 _ hb' q2 r2
-      simp only at d2 st2 g2 t2
-      cases hc : run hb' (.closeGoodbye :: m3) with
+      have hk2 : (ha'.setStage 0 sync (.unregistering 1)).closes[0]? = some ⟨sync, .unregistering 1⟩ := by
+        simp only [Host.setStage]
+        cases hl : ha'.closes with
+        | nil => simp [hl] at k1
+        | cons a r => simp [List.set]
+      obtain ⟨d2, t2, g2, k2, c2⟩ := mid_run m2 hm2 _ _ hb' q2 r2 hk2 (by simpa [Host.setStage] using g1)
+      simp only [Host.setStage] at d2 t2
+      cases hc : run hb' (.closeGoodbye 0 :: m3) with
       | none => simp [hc] at hr
       | some vc =>
         obtain ⟨hc', oc⟩ := vc
         simp only [hc, Option.some.injEq, Prod.mk.injEq] at hr
         obtain ⟨rfl, rfl⟩ := hr
-        obtain ⟨s3, p3, q3, e3, r3, rfl⟩ := run_cons_mid hb' .closeGoodbye m3 hc' oc hc
-        simp only [step, st2, Option.some.injEq, Prod.mk.injEq] at e3
+        obtain ⟨s3, p3, q3, e3, r3, rfl⟩ := run_cons hb' (.closeGoodbye 0) m3 hc' oc hc
+        simp only [step, k2, Option.some.injEq, Prod.mk.injEq] at e3
         obtain ⟨rfl, rfl⟩ := e3
-        obtain ⟨d3, st3, g3, t3, c3⟩ := mid_run m3 hm3 _ hc' q3 r3
-        simp only at d3 st3 g3 t3
+        have hk3 : (hb'.setStage 0 sync (.unregistering 0)).closes[0]? = some ⟨sync, .unregistering 0⟩ := by
+          simp only [Host.setStage]
+          cases hl : hb'.closes with
+          | nil => simp [hl] at k2
+          | cons a r => simp [List.set]
+        obtain ⟨d3, t3, g3, k3, c3⟩ := mid_run m3 hm3 _ _ hc' q3 r3 hk3 (by simpa [Host.setStage] using g2)
+        simp only [Host.setStage] at d3 t3
         have dA : ha'.done = false := d1.trans hnd
         have dB : hb'.done = false := d2.trans dA
-        refine ⟨?_, ?_, ?_, d3.trans dB, st3⟩
-        · simp only [count_append, c1, c2, c3, gated_of_not_done h hnd, gated_of_not_done ha' dA, gated_of_not_done hb' dB]
+        refine ⟨?_, ?_, g3, d3.trans dB, k3⟩
+        · simp only [count_append, c1, c2, c3, closeBody, hreg', ↓reduceIte, gated_of_not_done h hnd,
+            gated_of_not_done ha' dA, gated_of_not_done hb' dB]
           decide
         · rw [t3, t2, t1]; exact hopen
-        · rw [g3, g2, g1]
 
-/-- **C17, close completes.**  From the state the goodbye phase ends in (or from an idle host with an
-empty registry after `closeCall`), shutting down and finishing — again with any mid blocks interleaved —
-reaches `Closed`. -/
-theorem C17_close_completes (h : Host) (hst : h.stage = .unregistering 0)
-    (m4 : List Block) (hm4 : ∀ b ∈ m4, b.mid = true) (h' : Host) (o : List Out)
-    (hr : run h (.closeShutdown :: m4 ++ [.closeFinish]) = some (h', o)) : Closed h' := by
-  rw [run_append] at hr
-  cases ha : run h (.closeShutdown :: m4) with
-  | none => simp [ha] at hr
-  | some va =>
-    obtain ⟨ha', oa⟩ := va
-    simp only [ha, Option.bind] at hr
-    obtain ⟨s1, p1, q1, e1, r1, rfl⟩ := run_cons_mid h .closeShutdown m4 ha' oa ha
-    simp only [step, hst, Option.some.injEq, Prod.mk.injEq] at e1
-    obtain ⟨rfl, rfl⟩ := e1
-    obtain ⟨d1, st1, _, t1, _⟩ := mid_run m4 hm4 _ ha' q1 r1
-    simp only at d1 st1 t1
-    cases hb : run ha' [.closeFinish] with
-    | none => simp [hb] at hr
-    | some vb =>
-      obtain ⟨hb', ob⟩ := vb
-      simp only [hb, Option.some.injEq, Prod.mk.injEq] at hr
-      obtain ⟨rfl, _⟩ := hr
-      simp only [run, step, st1, bind, Option.bind, pure, Option.some.injEq, Prod.mk.injEq] at hb
-      obtain ⟨rfl, _⟩ := hb
-      exact ⟨d1, t1, rfl, rfl⟩
+/-- **C17, a returning close leaves the host closed** — whichever of the overlapping calls it is, whatever
+happened in between: the block in which a close call returns ends in `Closed` and emits nothing. -/
+theorem C17_close_returns_closed (h : Host) (hw : WF h) (i : Nat) (h' : Host) (o : List Out)
+    (hs : step h (.closeFinish i) = some (h', o)) : Closed h' ∧ o = [] := by
+  have hw' := WF_step h _ h' o hw hs
+  simp only [step] at hs
+  split at hs
+  · rename_i sync hi
+    simp only [Option.some.injEq, Prod.mk.injEq] at hs
+    obtain ⟨rfl, rfl⟩ := hs
+    refine ⟨C17_returned_closed _ hw' ?_, rfl⟩
+    simp only [Host.setStage]
+    apply List.any_eq_true.mpr
+    refine ⟨⟨sync, .returned⟩, ?_, rfl⟩
+    exact List.mem_set (List.getElem?_eq_some_iff.mp hi).1 _
+  · simp at hs
 
-/-- **C17, closing again is a no-op**: on a closed host the whole close sequence is enabled, emits
-nothing, and leaves every flag as it was. -/
-theorem C17_idempotent (h : Host) (hc : Closed h) :
-    ∃ h', run h [.closeCall, .closeGoodbye, .closeGoodbye, .closeShutdown, .closeFinish] = some (h', [])
-      ∧ Closed h' ∧ h'.done = h.done ∧ h'.transportsClosed = h.transportsClosed ∧ h'.cleanupArmed = h.cleanupArmed := by
-  have hst := hc.2.2.2
-  have hsome : (run h [.closeCall, .closeGoodbye, .closeGoodbye, .closeShutdown, .closeFinish]).isSome = true := by
-    simp only [run, step, hst, bind, Option.bind, pure]
-    by_cases hr : h.registry = 0 <;> simp [hr]
-  obtain ⟨⟨h', o⟩, hrun⟩ := Option.isSome_iff_exists.mp hsome
-  obtain ⟨ho, hc'⟩ := C17_quiet_run _ h hc h' o hrun
-  subst ho
-  exact ⟨h', hrun, hc', by rw [hc'.1, hc.1], by rw [hc'.2.1, hc.2.1], by rw [hc'.2.2.1, hc.2.2.1]⟩
-
-/-- full-strength goodbye statement: *any* non-close block may be interleaved (registrations completing
-included) and the registry is still empty when the transports are about to close -/
+/-- full-strength goodbye statement: *any* blocks may follow the close call (registrations completing
+included) and the registry is still empty afterwards -/
 def C17_goodbye_full : Prop :=
-  ∀ (h : Host) (m1 : List Block), h.stage = .idle → h.done = false → 0 < h.registry → (∀ b ∈ m1, b.isClose = false) →
-    ∀ h' o, run h (.closeCall :: m1 ++ [.closeGoodbye, .closeGoodbye]) = some (h', o) → h'.registry = 0
+  ∀ (h : Host) (bs : List Block), h.closes = [] → h.done = false → h.running = true → 0 < h.registry →
+    ∀ h' o, run h (.closeCall false :: bs) = some (h', o) → h'.registry = 0
 
 /-- D15, machine-checked: one service registered, a second one finishing its probes between the first and
 the second goodbye → it sits in the registry when the transports close -/
-def d14Host : Host :=
+def d15Host : Host :=
   { done := false, running := true, transportsClosed := false, cleanupArmed := true, registry := 1, browsers := [],
-    outq := 0, tc := 0, lookups := 0, probing := 1, announcing := 0, stage := .idle }
+    outq := 0, tc := 0, lookups := 0, probing := 1, announcing := 0, closes := [] }
 
 theorem C17_goodbye_full_refuted : ¬ C17_goodbye_full := by
   intro hf
-  have := hf d14Host [.probeStep true] rfl rfl (by decide) (by decide)
+  have := hf d15Host [.probeStep true, .closeGoodbye 0, .closeGoodbye 0] rfl rfl rfl (by decide)
   exact absurd (this _ _ rfl) (by decide)
+
+/-- the blocks of one more `async_close()` on a host on which `k` close calls were made so far -/
+def reclose (h : Host) : List Block :=
+  .closeCall false :: ((if h.registry = 0 then [] else [.closeGoodbye h.closes.length, .closeGoodbye h.closes.length]) ++
+    [.closeShutdown h.closes.length, .closeFinish h.closes.length])
+
+/-- what a further `async_close()` leaves behind on a closed host: tracked browsers added meanwhile are cancelled, the
+registry is emptied (silently), one more returned call is on record; the flags are as they were -/
+def recloseResult (h : Host) : Host :=
+  { done := true, running := false, transportsClosed := true, cleanupArmed := false, registry := 0,
+    browsers := cancelTracked h.browsers, outq := h.outq, tc := h.tc, lookups := h.lookups, probing := h.probing,
+    announcing := h.announcing, closes := h.closes ++ [⟨false, .returned⟩] }
+
+/-- **C17, closing again is a no-op**: on a closed host a further `async_close()` runs through all its blocks,
+emits nothing at all — no datagram, no callback, no exception — and leaves every flag as it was. -/
+theorem C17_idempotent (h : Host) (hc : Closed h) :
+    ∃ h', run h (reclose h) = some (h', []) ∧ Closed h' ∧ h'.done = h.done ∧ h'.transportsClosed = h.transportsClosed ∧
+      h'.cleanupArmed = h.cleanupArmed := by
+  obtain ⟨hd, ht, hcl, hret⟩ := hc
+  have hcl' : Closed (recloseResult h) := by
+    simp [Closed, recloseResult, hret]
+  refine ⟨recloseResult h, ?_, hcl', by simp [recloseResult, hd], by simp [recloseResult, ht], by simp [recloseResult, hcl]⟩
+  by_cases hr : h.registry = 0
+  · simp [reclose, recloseResult, hr, run, step, close_no_wait_of_done, closeBody, Host.setStage, bind, Option.bind, pure, hd, ht, hcl]
+  · simp [reclose, recloseResult, hr, run, step, close_no_wait_of_done, closeBody, Host.setStage, moreGoodbyes, register_broadcasts, bind,
+      Option.bind, pure, gated, hd, ht, hcl, send_blocked_of_done]
+
+/-- the full statement "no close call ever raises" is false: two `async_close()` calls made before the engine
+finished starting — the first one to wake shuts the instance down, the second wakes up in
+`async_wait_for_start`, finds `done`, and raises `NotRunningException` to its caller (finding D16) -/
+def Block.plainClose : Block → Bool
+  | .closeCall _ | .closeWake _ _ | .closeGoodbye _ | .closeMarkDone _ | .closeShutdown _ | .closeFinish _ | .startUp => true
+  | _ => false
+
+def C17_close_never_raises : Prop :=
+  ∀ (h : Host) (bs : List Block) (h' : Host) (o : List Out), h.closes = [] → (∀ b ∈ bs, b.plainClose = true) →
+    run h bs = some (h', o) → ∀ e, Out.raised e ∉ o
+
+def d16Host : Host :=
+  { done := false, running := false, transportsClosed := false, cleanupArmed := true, registry := 0, browsers := [],
+    outq := 0, tc := 0, lookups := 0, probing := 0, announcing := 0, closes := [] }
+
+def d16Blocks : List Block :=
+  [.closeCall false, .closeCall false, .startUp, .closeWake 0 false, .closeShutdown 0, .closeWake 1 false, .closeFinish 0]
+
+theorem C17_close_never_raises_refuted : ¬ C17_close_never_raises := by
+  intro hf
+  exact absurd (hf d16Host d16Blocks _ _ rfl (by decide) rfl .notRunning) (by decide)
 
 /-! ### non-vacuity -/
 
@@ -244,24 +615,42 @@ query, a tracked and an untracked browser with armed timers, a lookup -/
 def busy : Host :=
   { done := false, running := true, transportsClosed := false, cleanupArmed := true, registry := 1,
     browsers := [⟨true, false, true, true⟩, ⟨false, false, true, true⟩], outq := 2, tc := 1, lookups := 1,
-    probing := 1, announcing := 1, stage := .idle }
+    probing := 1, announcing := 1, closes := [] }
 
+/-- one close with traffic interleaved -/
 def closeSeq : List Block :=
-  [.closeCall, .recv 1 1 false true, .closeGoodbye, .outqFire true, .probeStep false, .closeGoodbye, .announceStep true,
-   .closeShutdown, .closeFinish]
+  [.closeCall false, .recv 1 1 false true, .closeGoodbye 0, .outqFire true, .probeStep false, .closeGoodbye 0, .announceStep true,
+   .closeShutdown 0, .closeFinish 0]
+
+/-- three overlapping closes: async, sync (`close()` from a thread), async; the third cuts in after the first
+goodbye and shuts the instance down; the first is cancelled while it sleeps; the second returns last -/
+def overlapSeq : List Block :=
+  [.closeCall false, .closeCall true, .recv 1 0 false true, .closeCall false, .closeShutdown 2, .closeGoodbye 0, .closeAbort 0,
+   .closeFinish 2, .outqFire true, .closeMarkDone 1, .closeShutdown 1, .closeFinish 1]
 
 -- the close sequence runs on `busy`, is not silent (goodbyes, an answer, callbacks, a probe, an announcement) …
 example : (run busy closeSeq).map (fun r => count isGoodbye r.2) = some 3 := by decide
 example : (run busy closeSeq).map (fun r => r.2.length) = some 9 := by decide
 -- … and ends closed, with things still in flight (timers armed, tasks pending)
 example : ∃ r, run busy closeSeq = some r ∧ Closed r.1 ∧ r.1.outq = 2 ∧ r.1.tc = 1 ∧ r.1.probing = 1 ∧ r.1.lookups = 1 := by decide
--- after which the very same kinds of blocks are silent
+-- after which the very same kinds of blocks are silent, and an API call raises to its caller only
 example : (run busy (closeSeq ++ [.outqFire true, .tcFire 2 1, .schedFire 1 1, .probeStep true, .announceStep true,
-    .lookupStep 1 true, .closeCall])).map (fun r => r.2.length) = some 9 := by decide
+    .lookupStep 1 true, .closeCall false, .apiCall .register])).map (fun r => r.2.drop 9) = some [.raised .notRunning] := by decide
 -- before the close they are not
 example : (run busy [.outqFire true, .tcFire 2 1, .schedFire 1 1, .probeStep true, .lookupStep 1 true]).map (fun r => r.2.length) = some 6 := by decide
--- hypotheses of the goodbye theorem hold for `busy`
-example : busy.stage = .idle ∧ busy.done = false ∧ busy.transportsClosed = false ∧ 0 < busy.registry := by decide
-example : Block.mid (.recv 1 1 false true) = true ∧ Block.mid (.probeStep false) = true ∧ Block.mid (.probeStep true) = false := by decide
+-- overlapping closes: one goodbye reaches the wire (D-free: the others are gated), the cancelled close raises to its caller,
+-- everything after the first return is silent, the host ends closed with two calls returned and one aborted
+example : (run busy overlapSeq).map (fun r => (count isGoodbye r.2, r.2.contains (.raised .cancelled))) = some (1, true) := by decide
+example : ∃ r, run busy overlapSeq = some r ∧ Closed r.1 ∧ WF r.1 ∧
+    r.1.closes.map (·.stage) = [.aborted, .returned, .returned] := by
+  refine ⟨_, rfl, by decide, ?_, by decide⟩
+  exact (C17_wf_invariant.2.2 overlapSeq busy _ _ (C17_wf_invariant.1 busy rfl) rfl)
+-- the hypotheses of the goodbye theorems hold for `busy`, and the interleavable blocks include other closes' steps
+example : busy.closes = [] ∧ busy.done = false ∧ busy.running = true ∧ busy.transportsClosed = false ∧ 0 < busy.registry := by decide
+example : Block.mid3 (.recv 1 1 false true) = true ∧ Block.mid3 (.closeCall true) = true ∧ Block.mid3 (.closeAbort 1) = true
+    ∧ Block.mid3 (.probeStep true) = false ∧ Block.mid3 (.closeShutdown 1) = false ∧ Block.mid3 (.closeAbort 0) = false := by decide
+-- D16 concretely: the second close raises, the first returns
+example : (run d16Host d16Blocks).map (fun r => (r.2, r.1.closes.map (·.stage))) =
+    some ([.raised .notRunning], [.returned, .aborted]) := by decide
 
 end Zc.Shutdown
